@@ -19,3 +19,44 @@ package storage
 //@   loop 1 invariant forall i int :: 0 <= i && i < lo ==> entries[i].Offset < offset
 //@   loop 1 invariant forall i int :: hi < i && i < len(entries) ==> entries[i].Offset > offset
 //@   loop 1 decreases hi - lo + 1
+
+// ---- byte range selection (C03 range clauses, C04 progress) ----
+// indexShape: what BuildSegment guarantees about an index (C03.i / C07): entries sorted by offset,
+// positions strictly increasing, first position is the end of the 32-byte header.
+//@ spec func indexShape(entries []*IndexEntry) bool = sortedIndex(entries) && (forall i int, j int :: 0 <= i && i < j && j < len(entries) ==> entries[i].Position < entries[j].Position) && (forall i int :: 0 <= i && i < len(entries) ==> entries[i].Position >= 32) && (forall i int, j int :: 0 <= i && i < len(entries) && 0 <= j && j < len(entries) && entries[i].Offset <= entries[j].Offset ==> entries[i].Position <= entries[j].Position)
+
+//@ func (l *PartitionLog) computeSegmentRange
+//@   requires len(entries) > 0 && indexShape(entries)
+//@   ensures [C03.range_inside_body] (result0 == -1 && result1 == -1) || (32 <= result0 && result0 <= result1 && result1 < seg.size - 16)
+//@   ensures [C03.range_starts_at_entry] result0 >= 0 ==> exists k int :: 0 <= k && k < len(entries) && result0 == int64(entries[k].Position) && (k == 0 || entries[k].Offset <= offset)
+//@   ensures [C04.start_is_floor] result0 >= 0 ==> forall j int :: 0 <= j && j < len(entries) && entries[j].Offset <= offset ==> int64(entries[j].Position) <= result0
+//@   ensures [C04.maxbytes_exact] result0 >= 0 && maxBytes > 0 && seg.size - 16 - result0 >= int64(maxBytes) ==> result1 - result0 + 1 == int64(maxBytes)
+//@   ensures [C04.whole_tail_otherwise] result0 >= 0 && (maxBytes <= 0 || seg.size - 16 - result0 < int64(maxBytes)) ==> result1 == seg.size - 16 - 1
+//@   ensures [C04.nonempty_when_possible] (forall i int :: 0 <= i && i < len(entries) ==> int64(entries[i].Position) < seg.size - 16) ==> result0 >= 0
+//@   ensures [C04.progress.excused] result0 >= 0 ==> forall p int64 :: result0 <= p && p < seg.size - 16 ==> (p <= result1 || (maxBytes > 0 && p - result0 + 1 > int64(maxBytes)))
+//@   ensures [C04.progress] result0 >= 0 ==> forall p int64 :: result0 <= p && p < seg.size - 16 ==> p <= result1
+//@
+//@ func (l *PartitionLog) segmentRangeForOffset
+//@   requires len(entries) > 0 ==> indexShape(entries)
+//@   ensures [C03.rangeread_inside_body] result0 ==> result1 != nil && 32 <= result1.Start && result1.Start <= result1.End && result1.End < seg.size - 16
+//@   ensures [C04.rangeread_start_is_floor] result0 ==> forall j int :: 0 <= j && j < len(entries) && entries[j].Offset <= offset ==> int64(entries[j].Position) <= result1.Start
+//@   ensures [C04.rangeread_maxbytes_exact] result0 && maxBytes > 0 && seg.size - 16 - result1.Start >= int64(maxBytes) ==> result1.End - result1.Start + 1 == int64(maxBytes)
+//@   ensures [C04.rangeread_whole_tail] result0 && (maxBytes <= 0 || seg.size - 16 - result1.Start < int64(maxBytes)) ==> result1.End == seg.size - 16 - 1
+//@   ensures [C04.rangeread_used_when_possible] len(entries) > 0 && (forall i int :: 0 <= i && i < len(entries) ==> int64(entries[i].Position) < seg.size - 16) ==> result0
+//@
+//@ func (l *PartitionLog) sliceCachedSegment
+//@   requires len(entries) > 0 ==> indexShape(entries)
+//@   requires int64(len(data)) == seg.size
+//@   ghost gstart int64 = -1
+//@   ghost gend int64 = -1
+//@   at computeSegmentRange#1 after set gstart = ret0
+//@   at computeSegmentRange#1 after set gend = ret1
+//@   ensures [C03.cached_copy_of_range] err == nil && len(entries) > 0 ==> 32 <= gstart && gstart + int64(len(result0)) <= int64(len(data)) - 16 && result0 == data[gstart : gstart + int64(len(result0))]
+//@   ensures [C04.cached_len] err == nil && len(entries) > 0 ==> int64(len(result0)) == gend - gstart + 1 && len(result0) >= 1
+//@   ensures [C04.cached_start_is_floor] err == nil && len(entries) > 0 ==> forall j int :: 0 <= j && j < len(entries) && entries[j].Offset <= offset ==> int64(entries[j].Position) <= gstart
+//@   ensures [C04.cached_served_when_possible] len(entries) > 0 && (forall i int :: 0 <= i && i < len(entries) ==> int64(entries[i].Position) < seg.size - 16) ==> err == nil
+//@
+//@ func sliceFullSegmentData
+//@   ensures [C03.full_is_body_prefix] len(data) >= 48 ==> 32 + len(result) <= len(data) - 16 && result == data[32 : 32 + len(result)]
+//@   ensures [C04.full_maxbytes] len(data) >= 48 && maxBytes > 0 && len(data) - 48 >= int(maxBytes) ==> len(result) == int(maxBytes)
+//@   ensures [C04.full_whole] len(data) >= 48 && (maxBytes <= 0 || len(data) - 48 < int(maxBytes)) ==> len(result) == len(data) - 48
